@@ -1076,7 +1076,7 @@ pub unsafe extern "C" fn fork() -> pid_t {
             }
             libc::syscall(libc::SYS_close, rp[0]);
             let mut st: c_int = 0;
-            libc::syscall(libc::SYS_wait4, rc, &mut st as *mut c_int, 0, 0);
+            raw_syscall(libc::SYS_wait4, rc as c_long, &mut st as *mut c_int as c_long, 0, 0, 0, 0);
             let report: ChildReport = match serde_json::from_slice(&data) {
                 Ok(r) => r,
                 Err(_) => {
@@ -1833,6 +1833,78 @@ pub unsafe extern "C" fn getppid() -> pid_t {
         Ctx::Real => libc::syscall(libc::SYS_getppid) as pid_t,
         Ctx::Child => PARENT_PID,
         Ctx::Par(_) => 1,
+    }
+}
+
+// ---- raw system calls ---------------------------------------------------------
+
+/// `syscall(2)` by number.  Everything is passed on to the kernel, except calls that name a
+/// process or create one: on the simulated side those would reach the real kernel with simulated
+/// process ids.  They answer ENOSYS (a kernel without them - callers fall back to the libc
+/// functions, which are interposed); `pidfd_open` first counts as a descriptor allocation, so a
+/// full descriptor table (EMFILE) is seen where one would be.
+#[no_mangle]
+pub unsafe extern "C" fn syscall(num: c_long, a1: c_long, a2: c_long, a3: c_long, a4: c_long, a5: c_long, a6: c_long) -> c_long {
+    if !matches!(ctx(), Ctx::Real) {
+        let blocked = [
+            libc::SYS_pidfd_open,
+            libc::SYS_pidfd_send_signal,
+            libc::SYS_kill,
+            libc::SYS_tkill,
+            libc::SYS_tgkill,
+            libc::SYS_wait4,
+            libc::SYS_waitid,
+            libc::SYS_fork,
+            libc::SYS_vfork,
+            libc::SYS_clone,
+            libc::SYS_clone3,
+            libc::SYS_execve,
+            libc::SYS_execveat,
+            libc::SYS_setpgid,
+            libc::SYS_getpgid,
+            libc::SYS_process_vm_readv,
+        ];
+        if blocked.contains(&num) {
+            let _g = Guard::new();
+            if num == libc::SYS_pidfd_open {
+                if let (Ctx::Par(_), true) = (ctx(), sim_installed()) {
+                    if let Some(e) = sim().k.fdalloc_site() {
+                        set_errno(e);
+                        return -1;
+                    }
+                }
+            }
+            if sim_installed() {
+                sim().k.probe("raw_syscall_refused");
+            }
+            set_errno(libc::ENOSYS);
+            return -1;
+        }
+    }
+    raw_syscall(num, a1, a2, a3, a4, a5, a6)
+}
+
+/// The system call itself (what the harness uses for its own real children).
+pub unsafe fn raw_syscall(num: c_long, a1: c_long, a2: c_long, a3: c_long, a4: c_long, a5: c_long, a6: c_long) -> c_long {
+    let ret: c_long;
+    core::arch::asm!(
+        "syscall",
+        inlateout("rax") num => ret,
+        in("rdi") a1,
+        in("rsi") a2,
+        in("rdx") a3,
+        in("r10") a4,
+        in("r8") a5,
+        in("r9") a6,
+        lateout("rcx") _,
+        lateout("r11") _,
+        options(nostack)
+    );
+    if (-4095..0).contains(&ret) {
+        set_errno(-ret as c_int);
+        -1
+    } else {
+        ret
     }
 }
 
